@@ -117,6 +117,8 @@ def ev(t, atoms, env=None):
                 raise Unknown("division by zero")
     if k == "ifexp":
         return ev(t[2] if ev(t[1], atoms, env) else t[3], atoms, env)
+    if k == "set":
+        return {ev(e, atoms, env) for e in t[1]}
     if k in ("list", "tuple"):
         out = []
         for e in t[1]:
@@ -182,6 +184,25 @@ def ev(t, atoms, env=None):
                                  "isin", "astype"):
         base = ev(t[1], atoms, env)
         if isinstance(base, Vec):
+            args = [ev(a, atoms, env) for a in t[3]]
+            try:
+                return getattr(base, t[2])(*args)
+            except Exception as e:  # noqa: BLE001
+                raise Unknown(f".{t[2]} fails: {e}")
+    if k == "mcall":
+        # methods of plain strings and sets (pure, no repository code)
+        base = None
+        try:
+            base = ev(t[1], atoms, env)
+        except Unknown:
+            base = None
+        ok_str = isinstance(base, str) and t[2] in (
+            "startswith", "endswith", "lower", "upper", "strip", "lstrip",
+            "rstrip", "split", "replace", "count", "find", "isdigit")
+        ok_set = isinstance(base, (set, frozenset)) and t[2] in (
+            "intersection", "isdisjoint", "issubset", "issuperset", "union",
+            "difference")
+        if (ok_str or ok_set) and not t[4]:
             args = [ev(a, atoms, env) for a in t[3]]
             try:
                 return getattr(base, t[2])(*args)
